@@ -31,6 +31,12 @@ func main() {
 		switch stream {
 		case "index":
 			genIndex(seed, n, os.Args[5])
+		case "sched":
+			header := ""
+			if len(os.Args) > 6 {
+				header = os.Args[6]
+			}
+			genSched(seed, n, os.Args[5], header)
 		default:
 			os.Exit(2)
 		}
@@ -38,6 +44,8 @@ func main() {
 		switch stream {
 		case "index":
 			execIndex(os.Args[3], os.Args[4])
+		case "sched":
+			execSched(os.Args[3], os.Args[4])
 		default:
 			os.Exit(2)
 		}
@@ -45,6 +53,8 @@ func main() {
 		switch stream {
 		case "index":
 			oracleIndex(os.Args[3], os.Args[4])
+		case "sched":
+			oracleSched(os.Args[3], os.Args[4])
 		default:
 			os.Exit(2)
 		}
